@@ -17,6 +17,10 @@ import CattrsModel.Subclasses.Lemmas
 reply `((apply b) (scope <name> b)… (cases (<un> <rt> <inscope b>)…))` with `<un>` = `(un <obj>)` | `(un-err)`,
 `<rt>` = `(ok <obj>)` | `(err)`: `structure(unstructure(x, unstructure_as=K), K)` on a converter the strategy was
 applied to (`(apply 0)`: applying it raises; the cases are then answered as if the registration had gone through).
+
+`SUBCLSN (<tree>…) <strategy> <forbid> <rev> <inherit 0|1> (<case>…)`: the strategy applied once per tree, in order, to
+ONE converter (or a copy of it), each tree an extension of the previous one; `<inherit>` = no `overrides` were given, so
+each application captures the hooks the previous one left in the converter.  Reply as above, preceded by `(applies b…)`.
 -/
 namespace CattrsModel.Subclasses
 open CattrsModel Sexp
@@ -53,6 +57,43 @@ def sexpOfRes : Option Obj → Sexp
   | some o => .list [.atom "ok", sexpOfObj o]
   | Option.none => .list [.atom "err"]
 
+def mkSetup (tr : Tree) (strategy : Strategy) (forbid rev : Bool) (H : Tagged.Hooks) : Setup :=
+  { tr := tr, strategy := strategy, forbid := forbid, H := H,
+    so := if rev then Disambig.SetOrder.rev else Disambig.SetOrder.id,
+    uo := if rev then UnionOrder.rev tr else UnionOrder.id tr }
+
+/-- successive applications to one converter: the hooks each application captures are those in force after the
+previous one (`inherit`: no `overrides` given) -/
+def chainSetups (strategy : Strategy) (forbid rev inherit : Bool) : Option Setup → List Tree → List Setup
+  | _, [] => []
+  | prev, tr :: rest =>
+    let plain := concHooks tr forbid
+    let H := match prev with
+      | some S => if inherit then S.hooksAfter plain else plain
+      | Option.none => plain
+    let S := mkSetup tr strategy forbid rev H
+    S :: chainSetups strategy forbid rev inherit (some S) rest
+
+def casesOfSexp (cases : List Sexp) : Option (List (Nat × Obj)) :=
+  cases.mapM (fun (c : Sexp) => match c with
+    | .list [k, x] => do pure ((← atomNat? k), (← objOfSexp x))
+    | _ => Option.none)
+
+def answer (S : Setup) (cs : List (Nat × Obj)) : List Sexp :=
+  let outs := cs.map (fun (K, x) =>
+    let u := S.un K x
+    Sexp.list [match u with
+               | some o => .list [.atom "un", sexpOfObj o]
+               | Option.none => .list [.atom "un-err"],
+               sexpOfRes (S.roundTrip K x),
+               ofBool (caseInScope S K x)])
+  [.list [.atom "apply", ofBool S.applyOk]] ++
+    (scopeBits S).map (fun (n, b) => .list [.atom "scope", .atom n, ofBool b]) ++
+    [.list (.atom "cases" :: outs)]
+
+/-- `SUBCLSN (<tree>…) <strategy> <forbid> <rev> <inherit 0|1> (<case>…)`: the strategy applied once per tree, in
+order, to ONE converter (each tree an extension of the previous one); the cases are answered for the state after the
+last application; reply as for `SUBCLS`, preceded by `(applies b…)` (does each application return). -/
 def subclassesHandle (op : String) (args : List Sexp) : Option Sexp :=
   match op, args with
   | "SUBCLS", [tr, st, fb, rv, .list cases] => do
@@ -60,22 +101,18 @@ def subclassesHandle (op : String) (args : List Sexp) : Option Sexp :=
       let strategy ← strategyOfSexp st
       let forbid ← bool? fb
       let rev ← bool? rv
-      let S : Setup := { tr := tr, strategy := strategy, forbid := forbid, H := concHooks tr forbid,
-                         so := if rev then Disambig.SetOrder.rev else Disambig.SetOrder.id,
-                         uo := if rev then UnionOrder.rev tr else UnionOrder.id tr }
-      let cs ← cases.mapM (fun (c : Sexp) => match c with
-        | .list [k, x] => do pure ((← atomNat? k), (← objOfSexp x))
-        | _ => Option.none)
-      let outs := cs.map (fun (K, x) =>
-        let u := S.un K x
-        Sexp.list [match u with
-                   | some o => .list [.atom "un", sexpOfObj o]
-                   | Option.none => .list [.atom "un-err"],
-                   sexpOfRes (S.roundTrip K x),
-                   ofBool (caseInScope S K x)])
-      pure (.list ([.list [.atom "apply", ofBool S.applyOk]] ++
-                   (scopeBits S).map (fun (n, b) => .list [.atom "scope", .atom n, ofBool b]) ++
-                   [.list (.atom "cases" :: outs)]))
+      let cs ← casesOfSexp cases
+      pure (.list (answer (mkSetup tr strategy forbid rev (concHooks tr forbid)) cs))
+  | "SUBCLSN", [.list trs, st, fb, rv, inh, .list cases] => do
+      let trs ← trs.mapM treeOfSexp
+      let strategy ← strategyOfSexp st
+      let forbid ← bool? fb
+      let rev ← bool? rv
+      let inherit ← bool? inh
+      let cs ← casesOfSexp cases
+      let Ss := chainSetups strategy forbid rev inherit Option.none trs
+      let last ← Ss.getLast?
+      pure (.list (.list (.atom "applies" :: Ss.map (fun S => ofBool S.applyOk)) :: answer last cs))
   | _, _ => Option.none
 
 end CattrsModel.Subclasses
